@@ -103,6 +103,11 @@ func (x *Exec) instr(fr *Frame, in ssa.Instruction, st *State, reach Term) *Stat
 		fr.vals[t] = v
 	case *ssa.ChangeInterface:
 		v := x.val(fr, t.X)
+		if isErrorType(v.T) && !isErrorType(t.Type()) {
+			// error boxed into a plain interface (e.g. a fmt argument)
+			x.sc.declFun("errBox", []string{"Err"}, "Int")
+			v = Val{T: t.Type(), S: fmt.Sprintf("(mk_iface %d (errBox %s))", x.so.typeTag(v.T), v.S)}
+		}
 		v.T = t.Type()
 		fr.vals[t] = v
 	case *ssa.MakeInterface:
